@@ -39,7 +39,7 @@ func c04Header(seed uint64, tier string) *Case {
 	tp := gen.SwarmParams(&r)
 	tp.Unkeyed = true
 	tp.PLeaf = []float64{0.5, 0.8, 1.0}[r.Intn(3)]
-	scenario := []string{"deepcopy", "deepcopy", "merge"}[r.Intn(3)]
+	scenario := []string{"deepcopy", "deepcopy", "merge", "deepcopy", "merge-emptymaps", "merge-overwrite"}[r.Intn(6)]
 	if p.HasTag("wrapperunion") {
 		// lists keyed by wrapper unions are keyed by pointer identity: merging two trees holds
 		// equal key values under distinct pointers, i.e. two entries for one YANG key, and no
@@ -79,7 +79,9 @@ func bump(v reflect.Value) bool {
 }
 
 // locations enumerates mutable places reachable from a tree, deterministically.
-func locations(root interface{}, rootSch *yang.Entry) []location {
+//
+// mk returns a fresh seeded generator for the mutations that insert new list entries.
+func locations(root interface{}, rootSch *yang.Entry, mk func() *gen.G) []location {
 	var out []location
 	var walk func(v reflect.Value, sch *yang.Entry, path string)
 	add := func(kind, desc string, f func()) { out = append(out, location{Desc: desc, Kind: kind, Mutate: f}) }
@@ -189,7 +191,14 @@ func locations(root interface{}, rootSch *yang.Entry) []location {
 				}
 				walk(f, csch, p)
 			case model.FList:
-				if f.IsNil() || f.Len() == 0 {
+				if f.IsNil() {
+					continue
+				}
+				if csch != nil && !pointerKeyedMap(f.Type()) {
+					// also offered for a map that is empty but not nil
+					add("map-entry-insert", p, func() { mk().AddMapEntry(f, csch, 4) })
+				}
+				if f.Len() == 0 {
 					continue
 				}
 				ks := f.MapKeys()
@@ -207,6 +216,10 @@ func locations(root interface{}, rootSch *yang.Entry) []location {
 			case model.FOrderedList:
 				if f.IsNil() {
 					continue
+				}
+				if csch != nil {
+					// also offered for an ordered map that is empty but not nil
+					add("ordered-append", p, func() { mk().AddOrderedEntry(f, csch, 4) })
 				}
 				st := model.OrderedInternals(f)
 				if !st.OK || st.Keys.Len() == 0 {
@@ -244,6 +257,63 @@ func locations(root interface{}, rootSch *yang.Entry) []location {
 	return out
 }
 
+func pointerKeyedMap(t reflect.Type) bool {
+	k := t.Key()
+	if k.Kind() == reflect.Interface || k.Kind() == reflect.Ptr {
+		return true
+	}
+	if k.Kind() == reflect.Struct {
+		for i := 0; i < k.NumField(); i++ {
+			if fk := k.Field(i).Type.Kind(); fk == reflect.Interface || fk == reflect.Ptr {
+				return true
+			}
+		}
+	}
+	return false
+}
+
+// injectEmpties turns some nil keyed lists and ordered lists of a tree into empty, non-nil
+// ones. YANG does not distinguish the two, and neither does the harness's walker; code that
+// copies or merges trees meets both.
+func injectEmpties(v reflect.Value, r *simrt.Rng) int {
+	if v.Kind() != reflect.Ptr || v.IsNil() {
+		return 0
+	}
+	s := v.Elem()
+	t := s.Type()
+	n := 0
+	for i := 0; i < t.NumField(); i++ {
+		f := s.Field(i)
+		switch model.Classify(t.Field(i)) {
+		case model.FContainer:
+			n += injectEmpties(f, r)
+		case model.FList:
+			if f.IsNil() {
+				if r.Intn(3) == 0 {
+					f.Set(reflect.MakeMap(f.Type()))
+					n++
+				}
+				continue
+			}
+			ks := f.MapKeys()
+			for a := 1; a < len(ks); a++ {
+				for b := a; b > 0 && model.Render(ks[b]) < model.Render(ks[b-1]); b-- {
+					ks[b], ks[b-1] = ks[b-1], ks[b]
+				}
+			}
+			for _, k := range ks {
+				n += injectEmpties(f.MapIndex(k), r)
+			}
+		case model.FOrderedList:
+			if f.IsNil() && r.Intn(3) == 0 {
+				f.Set(reflect.New(f.Type().Elem()))
+				n++
+			}
+		}
+	}
+	return n
+}
+
 // deepFingerprint is the model fingerprint (leaves, order, containers) of a tree.
 func deepFingerprint(s *treeState, t ygot.GoStruct) string {
 	return model.Walk(t, s.sch, "").Fingerprint()
@@ -258,10 +328,16 @@ func c04Exec(c *Case, generate bool) (*Violation, *execStats) {
 		tree ygot.GoStruct
 	}
 	var sides []side
+	re := simrt.NewRng(simrt.Mix(c.Seed, 43))
 	switch c.Target {
 	case "deepcopy":
 		var cp ygot.GoStruct
 		var err error
+		if c.Seed%2 == 1 {
+			if injectEmpties(reflect.ValueOf(s.root), &re) > 0 {
+				st.Probes["tree_with_empty_non_nil_lists"]++
+			}
+		}
 		if p := callSUT(func() { cp, err = ygot.DeepCopy(s.root) }); p != nil {
 			return violation("C04", "panic", "C04:panic:deepcopy", "DeepCopy panicked: %v\n%s", p.v, trimStack(p.stack)), st
 		}
@@ -283,7 +359,7 @@ func c04Exec(c *Case, generate bool) (*Violation, *execStats) {
 			}
 		}
 		sides = []side{{"original", s.root}, {"copy", cp}}
-	case "merge":
+	case "merge", "merge-emptymaps", "merge-overwrite":
 		// a and b are two projections of one tree, so they never conflict
 		ra := simrt.NewRng(simrt.Mix(c.Seed, 41))
 		rb := simrt.NewRng(simrt.Mix(c.Seed, 42))
@@ -291,9 +367,21 @@ func c04Exec(c *Case, generate bool) (*Violation, *execStats) {
 		b := model.Clone(s.root).(ygot.GoStruct)
 		gen.New(&ra, c.TreeP).Mutate(reflect.ValueOf(a).Elem(), s.sch, 0, gen.EditParams{PDel: 0.3})
 		gen.New(&rb, c.TreeP).Mutate(reflect.ValueOf(b).Elem(), s.sch, 0, gen.EditParams{PDel: 0.3})
+		var mopts []ygot.MergeOpt
+		switch c.Target {
+		case "merge-emptymaps":
+			mopts = append(mopts, &ygot.MergeEmptyMaps{})
+		case "merge-overwrite":
+			mopts = append(mopts, &ygot.MergeOverwriteExistingFields{})
+		}
+		if c.Target == "merge-emptymaps" || c.Seed%2 == 1 {
+			if injectEmpties(reflect.ValueOf(a), &re)+injectEmpties(reflect.ValueOf(b), &re) > 0 {
+				st.Probes["tree_with_empty_non_nil_lists"]++
+			}
+		}
 		var m ygot.GoStruct
 		var err error
-		if p := callSUT(func() { m, err = ygot.MergeStructs(a, b) }); p != nil {
+		if p := callSUT(func() { m, err = ygot.MergeStructs(a, b, mopts...) }); p != nil {
 			return violation("C04", "panic", "C04:panic:merge", "MergeStructs panicked: %v\n%s", p.v, trimStack(p.stack)), st
 		}
 		if err != nil {
@@ -322,7 +410,13 @@ func c04Exec(c *Case, generate bool) (*Violation, *execStats) {
 		st.Steps++
 		si, _ := strconv.Atoi(op.arg("side"))
 		si %= len(sides)
-		locs := locations(sides[si].tree, s.sch)
+		li0, _ := strconv.Atoi(op.arg("loc"))
+		locs := locations(sides[si].tree, s.sch, func() *gen.G {
+			rr := simrt.NewRng(simrt.Mix(c.Seed, uint64(1000+li0)))
+			tp := c.TreeP
+			tp.Unkeyed = false
+			return gen.New(&rr, tp)
+		})
 		if len(locs) == 0 {
 			continue
 		}
@@ -342,7 +436,7 @@ func c04Exec(c *Case, generate bool) (*Violation, *execStats) {
 				continue
 			}
 			// in the merge scenario the two inputs are unrelated trees; only result <-> input pairs matter
-			if c.Target == "merge" && sides[j].name != "merged" && sides[si].name != "merged" {
+			if strings.HasPrefix(c.Target, "merge") && sides[j].name != "merged" && sides[si].name != "merged" {
 				continue
 			}
 			after := deepFingerprint(s, sides[j].tree)
